@@ -10,6 +10,7 @@ FN_PROP = {"try_from": "C01", "try_from_t": "C01", "into": "C01", "into_t": "C01
 SRC_PROP = {"iter": "C06", "range": "C07", "names": "C08"}
 FN_RE = re.compile(r'"fn":"([a-z_]+)"')
 SRC_RE = re.compile(r'"src":"([a-z]+)"')
+SLOT_RE = re.compile(r'"slot":(\d+)')
 
 
 def coverage_counts(shards, meta):
@@ -19,22 +20,22 @@ def coverage_counts(shards, meta):
     gprop = {c["id"]: c["gprop"] for b in meta["bins"] for c in b["cases"]}
     kinds = collections.Counter()
     for sh in shards:
-        cur_case, cur_src = None, None
+        cur_case, cur_src = None, {}
         with open(sh["trace"]) as f:
             for line in f:
                 head = line[:160]
                 if '"ev":"decl"' in head or '"ev":"compile_fail"' in head:
                     cur_case = int(re.search(r'"case":(\d+)', head).group(1))
-                    cur_src = None
+                    cur_src = {}
                     continue
                 p = None
                 if '"ev":"call"' in head:
                     p = FN_PROP.get(FN_RE.search(head).group(1))
                 elif '"ev":"it_new"' in head:
-                    cur_src = SRC_RE.search(head).group(1)
-                    p = SRC_PROP[cur_src]
-                elif cur_src:
-                    p = SRC_PROP[cur_src]
+                    cur_src[SLOT_RE.search(head).group(1)] = SRC_RE.search(head).group(1)
+                    p = SRC_PROP[SRC_RE.search(head).group(1)]
+                elif '"ev":"it_' in head:
+                    p = SRC_PROP.get(cur_src.get(SLOT_RE.search(head).group(1)))
                 if p:
                     ev[p] += 1
                     cases[p].add(cur_case)
@@ -158,7 +159,7 @@ def compute(tier, seed):
     out = []
     for v in viols:
         e = v["ev"]
-        item = e.get("fn") or e.get("op") or e.get("src") or e.get("where")
+        item = e.get("fn") or e.get("op") or e.get("src") or e.get("where") or e.get("ev")
         ev = dict(e)
         if isinstance(ev.get("res"), dict) and "q" in ev["res"] and len(ev["res"]["q"]) > 12:
             ev["res"] = dict(ev["res"], q=ev["res"]["q"][:12] + ["..."])
